@@ -368,6 +368,10 @@ impl<'t> Interp<'t> {
                 self.take_block(fi, bi);
                 let snap = arena.snap();
                 self.check_new_block(arena, ptr, len, new.size(), new.align(), &snap, true);
+                if self.on.c13 && no_shrink && ((ptr as usize) % new.align() != 0 || len < new.size()) {
+                    // "all calls remain valid" with the opt-outs: the block returned must satisfy the new layout
+                    self.viol("C13/optout-shrink-invalid-block", format!("shrink with shrinking switched off returned {:#x} ({len} bytes) for the layout ({}, align {})", heap_off(ptr as usize), new.size(), new.align()));
+                }
                 if self.in_bounds(&snap, ptr, len) {
                     if self.on.c02 {
                         if let Some(i) = first_mismatch(ptr, b.id, 0, new_size.min(len)) {
@@ -830,6 +834,35 @@ impl<'t> Interp<'t> {
                         }
                     }
                 }
+            }
+            K_O_MISC if op.a[5] % 3 == 2 => {
+                // a typed request (value, slice, str, iterator, ...) through the claimed handle, also as a trait
+                // object: Err from the try_ form, the unwinding "claimed" panic from the panicking form; an abort is
+                // attributed to this run by the driver
+                let len = op.a[3] as usize % 40;
+                let req = TypedReq { method: op.a[1] as u8, ty: op.a[2] as u8, len, try_: op.a[4] & 1 == 1, panic_at: 0, seed: op.a[5] as u8 };
+                let zero_sized = req.ty % 5 == 4 && c % 3 == 0;
+                let r = catch_unwind(AssertUnwindSafe(|| o.typed(c, &req)));
+                match r {
+                    Ok(TypedRes::Unsupported) | Ok(TypedRes::Failed) | Ok(TypedRes::WrongLen { .. }) => {}
+                    Ok(_) => {
+                        // values of zero-sized types never touch the allocator; an empty slice is not a request for memory
+                        if self.on.c14 && !zero_sized && len > 0 {
+                            self.viol("C14/claimed-allocated", format!("typed request (method {}, type {}, {len} elements) through a claimed handle succeeded", req.method % 17, req.ty % 5));
+                        }
+                    }
+                    Err(p) => match classify_panic(p) {
+                        Caught::Harness(m) => harness_bug(m),
+                        Caught::Injected(_) => {}
+                        Caught::Library(m) => {
+                            if self.on.c14 && (req.try_ || !m.contains("claimed")) {
+                                self.viol("C14/claimed-allocate-unwound", format!("typed request through a claimed handle ({}) panicked: {m}", if req.try_ { "try_ form" } else { "panicking form" }));
+                            }
+                            self.stats.probe("c14.typed_request_unwound_claimed");
+                        }
+                    },
+                }
+                self.stats.probe("c14.typed_request_on_claimed_handle");
             }
             _ => {
                 self.check_orig_inert(o);
